@@ -100,5 +100,8 @@ def fetch_part(ctx, hs, which):
             ctx.divergences.append({"trace": "fetch-" + name, "line": d["rec"], "handler": d["kind"]})
         if rep["ndiv"]:
             ctx.log("DIVERGENCE: %d moves of the real fetch subsystem differ from Fetch.tla (%s; first: %s)" % (rep["ndiv"], name, json.dumps(rep["div"][:2])[:800]))
-        report(ctx, rep, tpath, which + ".", "the real fetch subsystem (sync_retry_delay %d/%d ms, retry nodes %d, gc depth %d) broke a monitor of Fetch.tla" % (brd, mrd, nodes, gc))
+        report(ctx, rep, tpath, which + ".", "the real fetch subsystem (sync_retry_delay %d/%d ms, retry nodes %d, gc depth %d) broke a monitor of Fetch.tla" % (brd, mrd, nodes, gc),
+               rerun=dict(harness=["fetch", "in={in}", "out={out}", "universe=" + os.path.join(VERIF, "checks", "fetch-universe.json"), "b_retry=%d" % brd,
+                                   "m_retry=%d" % mrd, "retry_nodes=%d" % nodes, "gc_depth=%d" % gc],
+                          schedules=bpath, module="TraceFetch.tla", constants=tc, invariants=["SpecInvs"]))
     ctx.extra["fetch_subsystem"] = total
